@@ -18,7 +18,8 @@ RULE = ("exhaustive: (A) target patterns to depth 3 (1-3 elements per level, at 
         "{name, attribute, subscript, slice} targets x 16 operand kinds (int, float, str, list, tuple, set, dict, user "
         "class with in-place method returning self / a new object / NotImplemented, only binary, only reflected) x "
         "placement {global, local, class, nonlocal, global-declared}; x all 8 option combinations. Cells whose original raises are out of domain. Distinct by cell; non-trivial iff the statement "
-        "stores to at least one target (all in-domain cells).")
+        "stores to at least one target (all in-domain cells)."
+        ' Plus parallel-assignment cells (swaps / rotations / Fibonacci steps of captured, global, class, attribute and subscript targets, right-hand calls that read a left-hand name, store order, the same name twice, nested patterns whose element is a dict / generator / iterator / set / map / string / custom iterable or that store into their own source) x {module, function, method}; the destructuring matrix also wraps the *nested* elements as iterators / generators / custom iterables; operand kinds include in-place results that are falsy.')
 ASSUMPTIONS = ["values are compared by repr, aliases by repr and identity (`is`)"]
 EXHAUSTIVE = {"quick": True, "thorough": True}
 FLOOR = {"quick": 8000, "thorough": 30000}
